@@ -7,26 +7,37 @@
 (* fresh2 under another hash seed), and digests of the argument objects    *)
 (* before and after the call.  Step l is accepted iff                      *)
 (*     ret = fresh   /\   before = after   /\   fresh = fresh2             *)
+(* CALLER-OWNED OBJECTS.  Some menu calls name an object (ev.obj # ""): the *)
+(* caller keeps ONE dict / list / value table per name for the whole        *)
+(* history, overwrites its contents before the call (callers update and     *)
+(* re-use their own containers) and passes that very object.  The service   *)
+(* stays stateless: the answer is still Fresh[c], the answer of the call    *)
+(* with a container of the same contents in a fresh interpreter.  `used` is *)
+(* the set of object names already passed (what an implementation that      *)
+(* remembers containers by identity could depend on).                       *)
 (***************************************************************************)
 EXTENDS Naturals, Sequences, TLC, Json, IOUtils
 CONSTANT Active
 Traces == JsonDeserialize(IOEnv.TRACE_FILE)
-VARIABLES tid, l, hist, verdict
+VARIABLES tid, l, hist, used, verdict
 T == Traces[tid]
 Clause(ev) ==
    IF ev.before # ev.after THEN "C15.argument_modified_by_the_call"
    ELSE IF ev.fresh # ev.fresh2 THEN "C15.result_depends_on_hash_seed"
    ELSE IF ev.ret # ev.fresh THEN
-        (IF \E j \in 1..Len(hist) : hist[j] = ev.c THEN "C15.repeated_call_gives_a_different_result" ELSE "C15.result_depends_on_earlier_calls")
+        (IF \E j \in 1..Len(hist) : hist[j] = ev.c THEN "C15.repeated_call_gives_a_different_result"
+         ELSE IF ev.obj # "" /\ ev.obj \in used THEN "C15.result_depends_on_an_earlier_state_of_the_callers_object"
+         ELSE "C15.result_depends_on_earlier_calls")
    ELSE ""
-Init == tid \in 1..Len(Traces) /\ l = 1 /\ hist = <<>> /\ verdict = <<>>
+Init == tid \in 1..Len(Traces) /\ l = 1 /\ hist = <<>> /\ used = {} /\ verdict = <<>>
 Step == /\ l <= Len(T.events)
         /\ LET ev == T.events[l]   cl == Clause(ev)
            IN /\ hist' = Append(hist, ev.c) /\ l' = l + 1          \* Session!Invoke(ev.c)
+              /\ used' = IF ev.obj = "" THEN used ELSE used \cup {ev.obj}
               /\ verdict' = IF cl = "" \/ Len(verdict) >= 3 THEN verdict ELSE Append(verdict, [e |-> l, c |-> cl])
         /\ UNCHANGED tid
 Finish == /\ l = Len(T.events) + 1 /\ l' = l + 1
           /\ PrintT("@@V " \o ToJson([tid |-> tid, n |-> Len(T.events), fails |-> verdict]))
-          /\ UNCHANGED <<tid, hist, verdict>>
+          /\ UNCHANGED <<tid, hist, used, verdict>>
 Next == Step \/ Finish
 =============================================================================
